@@ -17,10 +17,9 @@
 (* Argument naming follows the code: mutual_info_estimator_numba(Y, X):    *)
 (* Y is the feature, X the conditioning target.                            *)
 (***************************************************************************)
-EXTENDS Naturals, Integers, Sequences, FiniteSets, FiniteSetsExt, TLC
+EXTENDS MIDefs      \* CONSTANT N = number of rows
 
 CONSTANTS
-    N,                  \* number of rows
     K,                  \* codes are 0..K-1
     Canon,              \* TRUE: only canonical (restricted-growth) vectors are enumerated
     Flags,              \* subset of BOOLEAN: cardinality_correction values explored
@@ -38,60 +37,9 @@ Rows == 1..N
 Codes == 0..(K-1)
 
 ----------------------------------------------------------------------------
-(* exact logarithm arithmetic *)
-Primes == {p \in 2..N : \A d \in 2..(p-1) : p % d # 0}
-RECURSIVE Val(_, _)
-Val(p, m) == IF m % p = 0 THEN 1 + Val(p, m \div p) ELSE 0
-LogV(m)   == [p \in Primes |-> Val(p, m)]                 \* log m, m in 1..N
-ZeroV     == [p \in Primes |-> 0]
-AddV(a, b) == [p \in Primes |-> a[p] + b[p]]
-ScaleV(k, a) == [p \in Primes |-> k * a[p]]
-NegV(a) == ScaleV(-1, a)
-SumV(T, F(_)) == FoldSet(LAMBDA e, s : AddV(F(e), s), ZeroV, T)
-
-----------------------------------------------------------------------------
 (* vectors *)
 IsRGS(v) == v[1] = 0 /\ \A i \in 2..N : \E j \in 1..(i-1) : v[i] <= v[j] + 1
 Vec  == IF Canon THEN {v \in [Rows -> Codes] : IsRGS(v)} ELSE [Rows -> Codes]
-Vals(v) == {v[i] : i \in DOMAIN v}
-Count(v, a) == Cardinality({i \in DOMAIN v : v[i] = a})
-SeqSum(v) == FoldSet(LAMBDA i, s : v[i] + s, 0, DOMAIN v)
-
-\* sum over the values a that g takes on the positions P of  cnt_a * (log cnt_a - log d)
-TermD(g, P, d) ==
-    SumV({g[i] : i \in P},
-         LAMBDA a : LET k == Cardinality({i \in P : g[i] = a})
-                    IN ScaleV(k, AddV(LogV(k), NegV(LogV(d)))))
-
-----------------------------------------------------------------------------
-(* DEFINITIONS the properties refer to (not shaped like the code)          *)
-
-\* n * H(g)           (entropy in nats times n)
-NEnt(g) == NegV(TermD(g, DOMAIN g, Cardinality(DOMAIN g)))
-\* n * H(g | h)
-NCondEnt(g, h) == NegV(SumV(Vals(h), LAMBDA b : LET P == {i \in DOMAIN h : h[i] = b}
-                                                 IN TermD(g, P, Cardinality(P))))
-\* n * I(g; h), plug-in: sum n_ab log n_ab - sum n_a log n_a - sum n_b log n_b + n log n
-Joint(g, h) == {<<g[i], h[i]>> : i \in DOMAIN g}
-NPlugin(g, h) ==
-    LET n == Cardinality(DOMAIN g)
-        nab(ab) == Cardinality({i \in DOMAIN g : g[i] = ab[1] /\ h[i] = ab[2]})
-    IN AddV(AddV(SumV(Joint(g, h), LAMBDA ab : ScaleV(nab(ab), LogV(nab(ab)))),
-                 ScaleV(n, LogV(n))),
-            NegV(AddV(SumV(Vals(g), LAMBDA a : ScaleV(Count(g, a), LogV(Count(g, a)))),
-                      SumV(Vals(h), LAMBDA b : ScaleV(Count(h, b), LogV(Count(h, b)))))))
-
-\* the displaced copy: inside the group of rows sharing target value b, read the feature at the
-\* row position advanced cyclically by the group's size
-Displaced(g, h) == [i \in DOMAIN g |->
-                      g[((i - 1 + Count(h, h[i])) % Cardinality(DOMAIN g)) + 1]]
-NCorrected(g, h) == AddV(NCondEnt(Displaced(g, h), h), NegV(NCondEnt(g, h)))
-
-\* the specified self-pair rule: element-wise identity, nothing else
-SelfPair(g, h) == g = h
-
-\* specified score (times n) without subsampling
-SpecScore(g, h, cc) == IF cc /\ ~SelfPair(g, h) THEN NCorrected(g, h) ELSE NPlugin(g, h)
 
 ----------------------------------------------------------------------------
 (* subsampling: definitions *)
